@@ -289,6 +289,30 @@ Theorem C15_channel_drain_keeps_labels :
 Proof. exact drain_keeps_labels. Qed.
 Print Assumptions C15_channel_drain_keeps_labels.
 
+(* ---- every flag combination on a Channel or polling connection ---------------------------------- *)
+(* conn.process / receive for a packet with ANY combination of FlagMulti, FlagMultiDevice, FlagFrag,
+   FlagProxy, any count, any device (own / other registered / unregistered / colliding), any body
+   (payload / well-formed entries / malformed), with c.host = h whatever device the packet names
+   (Channel mode makes no table lookup): a handler only ever fires in the session whose ID is the
+   device of the packet or entry handled *)
+Theorem C15_flags_process_handled_own :
+  forall t h n, Forall handled_own (process_x t h n).1.
+Proof. exact process_x_own. Qed.
+Print Assumptions C15_flags_process_handled_own.
+
+Theorem C15_flags_history_handled_own :
+  forall ops w w' es, xrun w ops = (w', es) -> wf (xw_tbl w) -> wf (xw_tbl w') /\ Forall (Forall handled_own) es.
+Proof. exact xrun_own. Qed.
+Print Assumptions C15_flags_history_handled_own.
+
+Example C15_flags_nonvacuous :
+  let ops := [XReg idA 1; XReg idC 2; XOpen idA;
+              XChan idA (XP idC 192 7 false true false false 0 XPlain); XOpen idA;
+              XChan idA (XP idC 192 8 true true false false 1 (XCont [(idC, 193, 9)]))] in
+  map (flat_map ev_of) (xrun (XW ∅ []) ops).2 = [[VNew idA]; [VNew idC]; []; []; []; [VRecv idC idC 9]].
+Proof. exact flag_demo. Qed.
+Print Assumptions C15_flags_nonvacuous.
+
 (* ---- the code as it was before the fix: commits (chk = false), with the real pair ------------- *)
 (* Server.Session(B) returned A's session; a packet naming B updated the address / last-seen time
    of A's session and overwrote its key material before receive() refused it (talk and talkSub);
